@@ -207,10 +207,10 @@ package getoptions
 //@     invariant node.ok: currentProgramNode != nil && allocated(currentProgramNode)
 //@     invariant unk.ok: UnkOK()
 //@     decreases len(args) - iterator.idx
-//@     step term.stops {C04,C03}: Parsing() && Tok() == "--" ==> $exit && currentProgramNode == N0()
+//@     step term.stops {C04,C03,C10}: Parsing() && Tok() == "--" ==> $exit && currentProgramNode == N0()
 //@       && isconcat_tail(N0().ChildText, old_iter(N0().ChildText), args, I0() + 1)
 //@       && UnkSameIter(N0()) && OthersSameIter(N0()) && OptsSameIter()
-//@     step text.stop {C09,C03}: Positional() && !(Tok() in N0().ChildCommands) && N0().requireOrder ==> $exit && currentProgramNode == N0()
+//@     step text.stop {C09,C03,C10}: Positional() && !(Tok() in N0().ChildCommands) && N0().requireOrder ==> $exit && currentProgramNode == N0()
 //@       && isconcat_tail(N0().ChildText, old_iter(N0().ChildText), args, I0())
 //@       && UnkSameIter(N0()) && OthersSameIter(N0()) && OptsSameIter()
 //@     step text.keep {C03}: Positional() && !(Tok() in N0().ChildCommands) && !N0().requireOrder ==> !$exit && currentProgramNode == N0()
@@ -262,7 +262,7 @@ package getoptions
 //@       ==> isappend1(currentProgramNode.ChildText, old_loop(currentProgramNode.ChildText), args[old_loop(iterator.idx)])
 //@     invariant pairs.unk: len(currentProgramNode.UnknownOptions) >= old_loop(len(currentProgramNode.UnknownOptions))
 //@     invariant pairs.others: forall m *programTree :: allocated(m) && m != currentProgramNode ==> identical(m.ChildText, old_loop(m.ChildText)) && identical(m.UnknownOptions, old_loop(m.UnknownOptions))
-//@     step pair.unknown.stop {C09,C03}: Unresolved(currentProgramNode, p.Option) && currentProgramNode.requireOrder ==> $exit && !$returned
+//@     step pair.unknown.stop {C09,C03,C10}: Unresolved(currentProgramNode, p.Option) && currentProgramNode.requireOrder ==> $exit && !$returned
 //@       && isconcat_tail(currentProgramNode.ChildText, old_iter(currentProgramNode.ChildText), args, old_iter(iterator.idx))
 //@       && UnkSameIter(currentProgramNode) && OptsSameIter()
 //@     step pair.unknown.rec {C08}: Unresolved(currentProgramNode, p.Option) && !currentProgramNode.requireOrder ==> !$exit
